@@ -265,6 +265,20 @@ impl SemanticState {
             }
         }
 
+        // Every impl block must belong to a type defined in its module; otherwise its
+        // functions would silently be left out.
+        for module in self.modules.values() {
+            for impl_path in module.impls.keys() {
+                let is_defined_type = self.type_registry.get(impl_path).is_some_and(|item| {
+                    item.category() == ItemCategory::Defined
+                        && item.resolved().is_some_and(|r| r.inner.as_type().is_some())
+                });
+                if !is_defined_type {
+                    anyhow::bail!("impl block for `{impl_path}`, which is not a type defined in its module");
+                }
+            }
+        }
+
         // Now that we've finished resolving all of our types, we should be able
         // to resolve our extern values.
         for module in self.modules.values_mut() {
